@@ -173,7 +173,13 @@ impl Outcome {
         }
         h.write(&self.stdout);
         for e in &self.ent {
-            h.write(format!("{}|{}|{}|{}|{}|{}|{}", e.seq, e.task, e.len, e.ok, e.errno, e.bytes, e.src).as_bytes());
+            h.write(
+                format!(
+                    "{}|{}|{}|{}|{}|{}|{}",
+                    e.seq, e.task, e.len, e.ok, e.errno, e.bytes, e.src
+                )
+                .as_bytes(),
+            );
         }
         for e in &self.io {
             h.write(format!("{}|{}|{}|{}|{}", e.tag, e.k, e.count, e.ret, e.errno).as_bytes());
@@ -220,15 +226,25 @@ pub fn panic_fingerprint(loc: &str, msg: &str) -> String {
         _ => file,
     };
     let file = file.trim_start_matches("src/bin/threadsim/").to_string();
-    let file = if file.starts_with("cmd") { format!("src/{file}") } else { file };
+    let file = if file.starts_with("cmd") {
+        format!("src/{file}")
+    } else {
+        file
+    };
     let file = match file.find("/registry/src/") {
         Some(i) => {
             let rest = &file[i + "/registry/src/".len()..];
-            rest.split_once('/').map(|(_, r)| format!("dep:{r}")).unwrap_or(file.clone())
+            rest.split_once('/')
+                .map(|(_, r)| format!("dep:{r}"))
+                .unwrap_or(file.clone())
         }
         None => file,
     };
-    let stem: String = msg.chars().take(80).map(|c| if c.is_ascii_digit() { '#' } else { c }).collect();
+    let stem: String = msg
+        .chars()
+        .take(80)
+        .map(|c| if c.is_ascii_digit() { '#' } else { c })
+        .collect();
     format!("{file}|{stem}")
 }
 
@@ -281,14 +297,22 @@ fn watch() -> &'static Mutex<Watch> {
             std::thread::sleep(Duration::from_millis(100));
             let mut w = watch().lock().unwrap();
             let now = Instant::now();
-            let expired: Vec<u32> = w.deadlines.iter().filter(|(_, d)| **d <= now).map(|(p, _)| *p).collect();
+            let expired: Vec<u32> = w
+                .deadlines
+                .iter()
+                .filter(|(_, d)| **d <= now)
+                .map(|(p, _)| *p)
+                .collect();
             for pid in expired {
                 unsafe { libc::kill(pid as i32, libc::SIGKILL) };
                 w.deadlines.remove(&pid);
                 w.killed.insert(pid, true);
             }
         });
-        Mutex::new(Watch { deadlines: HashMap::new(), killed: HashMap::new() })
+        Mutex::new(Watch {
+            deadlines: HashMap::new(),
+            killed: HashMap::new(),
+        })
     })
 }
 
@@ -308,7 +332,12 @@ fn parse_shim_log(text: &str) -> (Vec<EntEvent>, Vec<IoEvent>) {
         match f.first().copied() {
             Some("E") if f.len() >= 6 => {
                 let ok = f[4] == "ok";
-                let step: u32 = f.iter().rev().find_map(|t| t.strip_prefix('@')).and_then(|t| t.parse().ok()).unwrap_or(0);
+                let step: u32 = f
+                    .iter()
+                    .rev()
+                    .find_map(|t| t.strip_prefix('@'))
+                    .and_then(|t| t.parse().ok())
+                    .unwrap_or(0);
                 let f: Vec<&str> = f.iter().copied().filter(|t| !t.starts_with('@')).collect();
                 ent.push(EntEvent {
                     seq: f[1].parse().unwrap_or(0),
@@ -317,7 +346,11 @@ fn parse_shim_log(text: &str) -> (Vec<EntEvent>, Vec<IoEvent>) {
                     ok,
                     errno: if ok { 0 } else { f[5].parse().unwrap_or(0) },
                     bytes: if ok { f[5].to_string() } else { String::new() },
-                    src: if ok { "plan".into() } else { f.get(6).unwrap_or(&"plan").to_string() },
+                    src: if ok {
+                        "plan".into()
+                    } else {
+                        f.get(6).unwrap_or(&"plan").to_string()
+                    },
                     step,
                 });
             }
@@ -356,7 +389,8 @@ fn parse_shim_log(text: &str) -> (Vec<EntEvent>, Vec<IoEvent>) {
 pub struct HarnessError(pub String);
 
 /// Number of simulated processes that hit the watchdog once and completed when re-run alone.
-pub static SPURIOUS_TIMEOUTS: std::sync::atomic::AtomicUsize = std::sync::atomic::AtomicUsize::new(0);
+pub static SPURIOUS_TIMEOUTS: std::sync::atomic::AtomicUsize =
+    std::sync::atomic::AtomicUsize::new(0);
 
 /// Execute one simulated process in `dir` (a directory owned by the calling
 /// worker; it is emptied first). A process killed by the wall-clock watchdog is
@@ -389,12 +423,14 @@ fn exec_once(ctx: &Ctx, dir: &Path, cmd: &Cmd, timeout: Duration) -> Result<Outc
         if f.name.contains('/') || f.name.starts_with('.') {
             return Err(he(format!("bad file name {}", f.name)));
         }
-        std::fs::write(dir.join(&f.name), &f.data).map_err(|e| he(format!("write input file: {e}")))?;
+        std::fs::write(dir.join(&f.name), &f.data)
+            .map_err(|e| he(format!("write input file: {e}")))?;
     }
     let stdin_path = dir.join(".stdin");
     let stdout_path = dir.join(".stdout");
     let stderr_path = dir.join(".stderr");
-    let open_out = |p: &Path| std::fs::File::create(p).map_err(|e| HarnessError(format!("create {p:?}: {e}")));
+    let open_out =
+        |p: &Path| std::fs::File::create(p).map_err(|e| HarnessError(format!("create {p:?}: {e}")));
 
     let mut c;
     let hist_path = dir.join(".history.json");
@@ -414,7 +450,8 @@ fn exec_once(ctx: &Ctx, dir: &Path, cmd: &Cmd, timeout: Duration) -> Result<Outc
             lib_calls: e2.lib_calls,
         };
         let sc_path = dir.join(".scenario.json");
-        std::fs::write(&sc_path, serde_json::to_vec(&sc).unwrap()).map_err(|e| he(format!("write scenario: {e}")))?;
+        std::fs::write(&sc_path, serde_json::to_vec(&sc).unwrap())
+            .map_err(|e| he(format!("write scenario: {e}")))?;
         c = Command::new(&ctx.threadsim);
         c.arg(&sc_path).arg(&hist_path);
     } else {
@@ -442,7 +479,10 @@ fn exec_once(ctx: &Ctx, dir: &Path, cmd: &Cmd, timeout: Duration) -> Result<Outc
                 "trace" => "trace",
                 _ => "random",
             };
-            plan.push_str(&format!("S {policy} {} {} {} {}\n", e2.sched.seed, e2.sched.param, e2.max_steps, e2.generous_requests));
+            plan.push_str(&format!(
+                "S {policy} {} {} {} {}\n",
+                e2.sched.seed, e2.sched.param, e2.max_steps, e2.generous_requests
+            ));
             for c in &e2.sched.trace {
                 plan.push_str(&format!("C {c}\n"));
             }
@@ -460,7 +500,14 @@ fn exec_once(ctx: &Ctx, dir: &Path, cmd: &Cmd, timeout: Duration) -> Result<Outc
     // The simulated process sees exactly the environment of the scenario.
     let keep: Vec<(String, String)> = c
         .get_envs()
-        .filter_map(|(k, v)| v.map(|v| (k.to_string_lossy().into_owned(), v.to_string_lossy().into_owned())))
+        .filter_map(|(k, v)| {
+            v.map(|v| {
+                (
+                    k.to_string_lossy().into_owned(),
+                    v.to_string_lossy().into_owned(),
+                )
+            })
+        })
         .collect();
     c.env_clear();
     for (k, v) in keep {
@@ -478,15 +525,27 @@ fn exec_once(ctx: &Ctx, dir: &Path, cmd: &Cmd, timeout: Duration) -> Result<Outc
             if unsafe { libc::pipe2(fds.as_mut_ptr(), libc::O_CLOEXEC) } != 0 {
                 return Err(he("pipe2 failed".into()));
             }
-            let (rd, wr) = unsafe { (std::fs::File::from_raw_fd(fds[0]), std::fs::File::from_raw_fd(fds[1])) };
+            let (rd, wr) = unsafe {
+                (
+                    std::fs::File::from_raw_fd(fds[0]),
+                    std::fs::File::from_raw_fd(fds[1]),
+                )
+            };
             // grow the pipe so that the whole input is in it before the process starts: what
             // each read(2) returns is then decided by the plan alone
-            unsafe { libc::fcntl(fds[1], libc::F_SETPIPE_SZ, (data.len() + 4096).next_power_of_two().max(65536) as libc::c_int) };
+            unsafe {
+                libc::fcntl(
+                    fds[1],
+                    libc::F_SETPIPE_SZ,
+                    (data.len() + 4096).next_power_of_two().max(65536) as libc::c_int,
+                )
+            };
             let cap = unsafe { libc::fcntl(fds[1], libc::F_GETPIPE_SZ) } as usize;
             if data.len() <= cap {
                 use std::io::Write;
                 let mut wr = wr;
-                wr.write_all(data).map_err(|e| he(format!("fill pipe: {e}")))?;
+                wr.write_all(data)
+                    .map_err(|e| he(format!("fill pipe: {e}")))?;
                 drop(wr);
             } else {
                 let data = data.clone();
@@ -506,12 +565,17 @@ fn exec_once(ctx: &Ctx, dir: &Path, cmd: &Cmd, timeout: Duration) -> Result<Outc
             c.stdin(Stdio::null());
         }
     }
-    c.stdout(open_out(&stdout_path)?).stderr(open_out(&stderr_path)?);
+    c.stdout(open_out(&stdout_path)?)
+        .stderr(open_out(&stderr_path)?);
 
     let t0 = Instant::now();
     let mut child = c.spawn().map_err(|e| he(format!("spawn: {e}")))?;
     let pid = child.id();
-    watch().lock().unwrap().deadlines.insert(pid, Instant::now() + timeout);
+    watch()
+        .lock()
+        .unwrap()
+        .deadlines
+        .insert(pid, Instant::now() + timeout);
     let st = child.wait().map_err(|e| he(format!("wait: {e}")))?;
     drop(c); // closes our copy of the pipe's read end, so a writer thread cannot block for ever
     if let Some(w) = pipe_writer {
@@ -536,18 +600,25 @@ fn exec_once(ctx: &Ctx, dir: &Path, cmd: &Cmd, timeout: Duration) -> Result<Outc
     let stdout = read_file_lossy(&stdout_path, 1 << 22);
     let stderr = String::from_utf8_lossy(&read_file_lossy(&stderr_path, 4096)).into_owned();
     let (ent, io, e2) = if e2_exec {
-        match std::fs::read(&hist_path).ok().and_then(|b| serde_json::from_slice::<E2History>(&b).ok()) {
+        match std::fs::read(&hist_path)
+            .ok()
+            .and_then(|b| serde_json::from_slice::<E2History>(&b).ok())
+        {
             Some(h) => {
                 // the executor encodes the way the run ended in its exit status;
                 // the simulated process's own status is in the history
                 match (h.end.as_str(), h.exit) {
                     ("exit", Some(code)) => {
                         if status != Status::Exit(code & 0xff) {
-                            return Err(he(format!("threadsim status {status:?} disagrees with history exit {code}")));
+                            return Err(he(format!(
+                                "threadsim status {status:?} disagrees with history exit {code}"
+                            )));
                         }
                         status = Status::Exit(code & 0xff);
                     }
-                    ("harness", _) => return Err(he(format!("threadsim harness error: {}", h.detail))),
+                    ("harness", _) => {
+                        return Err(he(format!("threadsim harness error: {}", h.detail)))
+                    }
                     _ => {}
                 }
                 (h.entropy.clone(), Vec::new(), Some(h))
@@ -584,21 +655,40 @@ fn exec_once(ctx: &Ctx, dir: &Path, cmd: &Cmd, timeout: Duration) -> Result<Outc
             }
             let mut h = e3_history(&log, &ent, &stderr);
             match (h.end.as_str(), &status) {
-                ("deadlock", Status::Exit(71)) | ("budget", Status::Exit(72)) | ("liveness", Status::Exit(73)) => {}
+                ("deadlock", Status::Exit(71))
+                | ("budget", Status::Exit(72))
+                | ("liveness", Status::Exit(73)) => {}
                 ("exit", Status::Exit(c)) => h.exit = Some(*c),
                 (_, Status::Timeout) | (_, Status::Signal(_)) => h.end = "killed".into(),
-                (e, st) => return Err(he(format!("E3 log says the run ended with '{e}' but the process status is {st:?}"))),
+                (e, st) => {
+                    return Err(he(format!(
+                        "E3 log says the run ended with '{e}' but the process status is {st:?}"
+                    )))
+                }
             }
             hist = Some(h);
         }
         (ent, io, hist)
     };
-    Ok(Outcome { status, stdout, stderr, ent, io, e2, wall_us })
+    Ok(Outcome {
+        status,
+        stdout,
+        stderr,
+        ent,
+        io,
+        e2,
+        wall_us,
+    })
 }
 
 /// Engine E3: reconstruct the run's history from the shim's scheduler log.
 fn e3_history(log: &str, ent: &[EntEvent], stderr: &str) -> E2History {
-    let mut h = E2History { end: "exit".into(), tasks: 1, entropy: ent.to_vec(), ..E2History::default() };
+    let mut h = E2History {
+        end: "exit".into(),
+        tasks: 1,
+        entropy: ent.to_vec(),
+        ..E2History::default()
+    };
     let mut ended = false;
     for line in log.lines() {
         let f: Vec<&str> = line.split(' ').collect();
@@ -619,7 +709,9 @@ fn e3_history(log: &str, ent: &[EntEvent], stderr: &str) -> E2History {
             _ => {}
         }
     }
-    h.unfinished_at_end = h.tasks.saturating_sub(h.finished_before_exit.len() as u32 + 1);
+    h.unfinished_at_end = h
+        .tasks
+        .saturating_sub(h.finished_before_exit.len() as u32 + 1);
     h.preemptions = h.choices.windows(2).filter(|w| w[0] != w[1]).count() as u32;
     h.generous_at_step = ent.iter().find(|e| e.src == "tail").map(|e| e.step);
     // real threads report their panics on stderr
@@ -628,8 +720,17 @@ fn e3_history(log: &str, ent: &[EntEvent], stderr: &str) -> E2History {
         let tail = &rest[i + "panicked at ".len()..];
         let (loc, after) = tail.split_once('\n').unwrap_or((tail, ""));
         let msg = after.lines().next().unwrap_or("").to_string();
-        let thread_main = rest[..i].rsplit('\n').next().map(|l| l.contains("'main'")).unwrap_or(false);
-        h.panics.push(PanicEvent { task: if thread_main { 0 } else { u32::MAX }, msg, loc: loc.trim_end_matches(':').to_string(), step: 0 });
+        let thread_main = rest[..i]
+            .rsplit('\n')
+            .next()
+            .map(|l| l.contains("'main'"))
+            .unwrap_or(false);
+        h.panics.push(PanicEvent {
+            task: if thread_main { 0 } else { u32::MAX },
+            msg,
+            loc: loc.trim_end_matches(':').to_string(),
+            step: 0,
+        });
         if !thread_main {
             h.died += 1;
         }
